@@ -471,7 +471,10 @@ def native_bounded(harness_files, names, inject=(), watchdog_s=300):
                 out[n] = (None, f"native harness exceeded {watchdog_s}s")
                 continue
             ok = r.returncode == 0 and "VERIF-REPLAY-PASSED" in r.stdout
-            out[n] = (ok if r.returncode not in (3, 4, 5) else None, (r.stdout + r.stderr)[-3000:])
+            txt = r.stdout + r.stderr
+            if len(txt) > 3000:    # the harness prints its COUNTEREXAMPLE / panic message first, the backtrace last
+                txt = txt[:1800] + "\n...\n" + txt[-1200:]
+            out[n] = (ok if r.returncode not in (3, 4, 5) else None, txt)
     finally:
         shutil.rmtree(d, ignore_errors=True)
     return out
